@@ -33,6 +33,14 @@ size_t strlen(const char *s)
 	/* first NUL: no earlier NUL at position 0 or at the ghost index */
 	__CPROVER_assume(n == 0 || s[0] != 0);
 	__CPROVER_assume(!(g_str_k < n) || s[g_str_k] != 0);
+	/* ... nor among the first 8 characters (exact reasoning about short names) */
+	__CPROVER_assume(n <= 1 || s[1] != 0);
+	__CPROVER_assume(n <= 2 || s[2] != 0);
+	__CPROVER_assume(n <= 3 || s[3] != 0);
+	__CPROVER_assume(n <= 4 || s[4] != 0);
+	__CPROVER_assume(n <= 5 || s[5] != 0);
+	__CPROVER_assume(n <= 6 || s[6] != 0);
+	__CPROVER_assume(n <= 7 || s[7] != 0);
 	return n;
 }
 
